@@ -92,9 +92,20 @@ def exp_visit(x, log):
     return len(log) - 1
 
 
+def ctx_with_empty_list_arg():
+    """CTX_SU plus a macro \\w whose optional marker argument is an EMPTY node list (not None) when absent"""
+    from pylatexenc.macrospec import MacroSpec
+    from pylatexenc.latexnodes import LatexArgumentSpec
+    from pylatexenc.latexnodes.parsers import LatexOptionalCharsMarkerParser
+    db = get_ctx('SU')
+    db.add_context_category('W', macros=[MacroSpec('w', arguments_spec_list=[
+        LatexArgumentSpec(LatexOptionalCharsMarkerParser(['*'], return_none_instead_of_empty=False)), '{'])])
+    return db
+
+
 def body_visit(s, ctxname, tolerant):
     try:
-        nl = parse(s, get_ctx(ctxname), tolerant=tolerant)
+        nl = parse(s, ctx_with_empty_list_arg() if ctxname == 'W' else get_ctx(ctxname), tolerant=tolerant)
     except LatexWalkerParseError:
         return False
     except Violation:
@@ -140,6 +151,10 @@ def conditions(tier):
         for tag, pre in ord_partition('s', 0, (36, 37, 92, 93, 123)):
             conds.append(Cond('visit_S_tol_eq3_' + tag, 's: str', ['len(s) == 3', pre], "body_visit(s, 'S', True)",
                               timeout=T, cost=4, twin=False))
+    for nm, sk in (('w_absent', BS + 'w?{?}?'), ('w_star', BS + 'w*{?}?')):
+        conds.append(Cond('skel_W_' + nm, 's: str', skel_pre(sk), "body_visit(s, 'W', False)", timeout=T, twin=False,
+                          smoke=[dict(s=skel_fill(sk)), dict(s=skel_fill(sk, ' '))],
+                          descr='macro whose absent optional marker is an empty node list: %r' % sk))
     qskip = ('a_tok', 'g_toks', 'd_bare', 'env_E2', 'math_p', 'comment_par', 'dashes', 'quotes', 'f_mos', 'q_absent',
              'b_sp', 'c_end', 'e_part', 'nl_opt', 'env_F2', 'math_d')
     for ctxn, lst in (('S', SKELETONS_S), ('D', SKELETONS_D)):
